@@ -145,6 +145,16 @@ def run_property(prop: str, tier: str, seed: int, update_baseline: bool = False)
                 if o["status"] == "pending":
                     d = done[o["id"]]
                     o.update(status=d["status"], backend=d["backend"], time_s=round(o["time_s"] + d["time_s"], 3), detail=(d["detail"] or o["detail"])[:2000])
+        # obligations neither solver decided within the normal budget: once more with a large budget, few at a time
+        slow = [t for t in pending if done[t[0]]["status"] == "unknown"]
+        if slow:
+            with mp.Pool(min(4, len(slow))) as pool:
+                done2 = {d["id"]: d for d in pool.map(solve.finish_pending_slow, slow, chunksize=1)}
+            for r in recs:
+                for o in r["obligations"]:
+                    if o["id"] in done2:
+                        d = done2[o["id"]]
+                        o.update(status=d["status"], backend=d["backend"], time_s=round(o["time_s"] + d["time_s"], 3), detail=(d["detail"] or o["detail"])[:2000])
     baseline = load_json(BASELINE, {})
     known = load_json(KNOWN, {"findings": [], "fixed": []})
     known_list = known.get("findings", [])
@@ -220,6 +230,10 @@ def run_property(prop: str, tier: str, seed: int, update_baseline: bool = False)
             kf = match_known(o)
             if kf is not None:
                 known_hit.append({"obligation": o["id"], "finding": kf})
+                continue
+            if o["status"] == "unknown":
+                # no solver produced a counter-model or a proof within the (enlarged) budget: undecided, not a violation
+                undecided.append(f"{o['id']}: solver budget exhausted ({o['detail'][:120]})")
                 continue
             violations.append({"function": key, **o})
     if lemma_bad:
